@@ -37,6 +37,13 @@ use std::sync::{Arc, Mutex};
 pub const LEAF: u16 = u16::MAX;
 pub const TAG: i64 = -99;
 pub const SEP: i64 = -7;
+pub const TICK: i64 = -98;
+
+/// a pre-state read of zero keys whose key names the task: a point where the harness can hold
+/// the task up (schedule perturbation); leaves the stack as it was
+pub fn tick(a: i64, b: i64) -> Vec<Op> {
+    vec![push(a), push(b), push(TICK), push(3), push(0), push(0), by("KRNG")]
+}
 
 #[derive(Clone, Debug)]
 pub struct SolD {
@@ -214,9 +221,14 @@ pub fn pre_view(case: &Case, log: Arc<Mutex<Vec<Read>>>) -> View {
 }
 
 pub fn run_case(case: &Case) -> RunResult {
+    run_case_with(case, None)
+}
+
+pub fn run_case_with(case: &Case, delay: Option<Arc<dyn Fn(&[i64]) -> std::time::Duration + Send + Sync>>) -> RunResult {
     let (set, predicates, programs) = build(case);
     let log = Arc::new(Mutex::new(vec![]));
-    let pre = pre_view(case, log.clone());
+    let mut pre = pre_view(case, log.clone());
+    pre.delay = delay;
     let content_addr = essential_hash::content_addr(&set).0;
     let cfg = Arc::new(CheckPredicateConfig { collect_all_failures: case.all });
     let preds = Arc::new(predicates);
@@ -303,6 +315,10 @@ pub fn raw_case(case: &Case) -> serde_json::Value {
 
 pub fn emit(b: &mut Batcher, label: &str, case: &Case) -> RunResult {
     let r = run_case(case);
+    emit_result(b, label, case, r)
+}
+
+pub fn emit_result(b: &mut Batcher, label: &str, case: &Case, r: RunResult) -> RunResult {
     // C16: a set returned by the mutation-computing check must still pass set validation
     let revalid = match &r.obs {
         Obs::Ok { muts, .. } => {
@@ -338,6 +354,9 @@ pub fn emit(b: &mut Batcher, label: &str, case: &Case) -> RunResult {
 
 /// Programs for one predicate: node i gets body(i) (+ optional reads) and, if a leaf, report + ending.
 pub struct NodeSpec {
+    /// extra code after the body (e.g. a Compute block)
+    pub extra: Vec<Op>,
+    pub tick: bool,
     pub reads: Vec<Vec<Op>>,
     pub fail: bool,
     pub leaf: Leaf,
@@ -345,7 +364,7 @@ pub struct NodeSpec {
 }
 impl Default for NodeSpec {
     fn default() -> Self {
-        NodeSpec { reads: vec![], fail: false, leaf: Leaf::True, report: true }
+        NodeSpec { extra: vec![], tick: false, reads: vec![], fail: false, leaf: Leaf::True, report: true }
     }
 }
 
@@ -366,7 +385,12 @@ pub fn is_leaf_enc(p: &PredD, n: usize) -> Option<bool> {
 }
 
 pub fn node_program(sol: usize, n: usize, leaf: bool, spec: &NodeSpec) -> Vec<Op> {
-    let mut v = body(n);
+    let mut v = vec![];
+    if spec.tick {
+        v.extend(tick(sol as i64, n as i64));
+    }
+    v.extend(body(n));
+    v.extend(spec.extra.iter().copied());
     for r in &spec.reads {
         v.extend(r.iter().copied());
     }
@@ -395,6 +419,7 @@ pub fn main(args: &Args) -> i32 {
         "overlay" => overlay(args, &mut b, &mut rng),
         "perm" => perm(args, &mut b, &mut rng),
         "decode" => decode(args, &mut b, &mut rng),
+        "sched" => sched(args, &mut b, &mut rng),
         "probe-f8b" => {
             // Finding F8b: a post-state range read with an astronomically large count over a contract
             // the set mutates iterates once per requested key.  This call is not expected to return
@@ -817,4 +842,104 @@ fn decode(args: &Args, b: &mut Batcher, rng: &mut SmallRng) {
         }
     }
     let _ = rng;
+}
+
+
+/// C02: the same case under thread pools of 1..16 workers and under schedule perturbations that
+/// make tasks finish in reverse index order / in random order.  Every run is validated against
+/// the (deterministic) specification and the runs are compared with each other.
+fn sched(args: &Args, b: &mut Batcher, rng: &mut SmallRng) {
+    let count = if args.thorough { 160 } else { 40 } / args.shard.1.max(1);
+    let pools: Vec<usize> = if args.thorough { vec![1, 2, 3, 4, 8, 16] } else { vec![1, 2, 4, 16] };
+    for i in 0..count {
+        // 2-3 solutions; predicates with wide levels (several roots feeding several leaves), a node
+        // with a Compute whose children tick, data outputs (order of computed mutations), failures
+        let nsol = rng.gen_range(2..4usize);
+        let mut preds = vec![];
+        let mut progs = vec![];
+        let mut sols = vec![];
+        for s in 0..nsol {
+            let roots = rng.gen_range(2..5usize);
+            let leaves = rng.gen_range(2..4usize);
+            // roots 0..roots-1 each point to every leaf (numbered after the roots, or before: shuffled)
+            let n = roots + leaves;
+            let mut ids: Vec<usize> = (0..n).collect();
+            ids.shuffle(rng);
+            let (rids, lids) = ids.split_at(roots);
+            let mut nodes = vec![(LEAF, 0usize); n];
+            let mut edges: Vec<u16> = vec![];
+            // edge lists must be laid out in node-index order for the CSR encoding
+            for k in 0..n {
+                if rids.contains(&k) {
+                    nodes[k].0 = edges.len() as u16;
+                    for l in lids {
+                        edges.push(*l as u16);
+                    }
+                }
+            }
+            let pred = PredD { nodes: nodes.clone(), edges };
+            let mut p = pred.clone();
+            for k in 0..n {
+                let leaf = lids.contains(&k);
+                let mut spec = NodeSpec { tick: true, ..Default::default() };
+                if !leaf && rng.gen_bool(0.5) {
+                    // a Compute of 3 children: each ticks with its index and allocates index+1 words
+                    let mut e = vec![push(3), by("COM")];
+                    e.extend([by("DUP"), push(1000 + k as i64), by("SWAP"), push(TICK), push(3), push(0), push(0), by("KRNG")]);
+                    e.extend([by("DUP"), push(1), by("ADD"), by("ALOC"), by("POP"), by("COME")]);
+                    spec.extra = e;
+                }
+                if leaf {
+                    spec.leaf = match rng.gen_range(0..24) {
+                        0 => Leaf::False,
+                        1 => Leaf::Error,
+                        2..=9 => Leaf::Data(encode_muts(&[(vec![s as i64, k as i64], vec![k as i64])])),
+                        _ => Leaf::True,
+                    };
+                    spec.report = !matches!(spec.leaf, Leaf::Data(_)) || rng.gen_bool(0.5);
+                } else if rng.gen_range(0..40) == 0 {
+                    spec.fail = true;
+                }
+                p.nodes[k].1 = progs.len();
+                progs.push(ProgD { bad: None, ops: node_program(s, k, leaf, &spec) });
+            }
+            preds.push(p);
+            sols.push(SolD { contract: 1001 + 100 * s as i64, pred: s, predw: 2001 + 10 * s as i64, pdata: vec![], decl: vec![] });
+        }
+        let case = Case { sols, preds, progs, pre: vec![], all: rng.gen_bool(0.5) };
+        let mut results: Vec<(String, String)> = vec![];
+        for pool in &pools {
+            for strat in ["none", "reverse", "random"] {
+                if *pool == 1 && strat != "none" {
+                    continue;
+                }
+                let seed: u64 = rng.gen();
+                let st = strat.to_string();
+                let delay: Option<Arc<dyn Fn(&[i64]) -> std::time::Duration + Send + Sync>> = match strat {
+                    "none" => None,
+                    _ => Some(Arc::new(move |key: &[i64]| {
+                        if key.last() != Some(&TICK) && key.last() != Some(&TAG) {
+                            return std::time::Duration::ZERO;
+                        }
+                        // key = [.., a, b, TICK]: b is the node index or the compute index
+                        let bidx = key.get(key.len().wrapping_sub(2)).copied().unwrap_or(0).rem_euclid(16) as u64;
+                        let us = if st == "reverse" { (16 - bidx) * 150 } else { (seed ^ (bidx * 0x9E37)) % 1500 };
+                        std::time::Duration::from_micros(us)
+                    })),
+                };
+                let tp = rayon::ThreadPoolBuilder::new().num_threads(*pool).build().expect("pool");
+                let r = tp.install(|| run_case_with(&case, delay));
+                let label = format!("sched/{}/{i}/p{pool}/{strat}", args.shard.0);
+                let sig = format!("{:?}", r.obs);
+                let r = emit_result(b, &label, &case, r);
+                let _ = r;
+                results.push((label, sig));
+            }
+        }
+        let same = results.windows(2).all(|w| w[0].1 == w[1].1);
+        b.count(if same { "sched_same" } else { "sched_DIFFERENT" }, 1);
+        if !same {
+            b.samples.push(json!({"DIFFERENT": results, "case": raw_case(&case)}));
+        }
+    }
 }
